@@ -104,8 +104,8 @@ theorem step_bal {s s' : Sh} {t t' : Th} (c : Nat) (hm : (s', t') ∈ step' s t)
       by_cases hin : c' ∈ l
       · have hpos : 0 < l.count c' := List.count_pos_iff.mpr hin
         by_cases h : c' = c
-        · subst h; simp [hin, List.count_cons]; omega
-        · simp [hin, h, List.count_cons]
+        · subst h; simp [hin]; omega
+        · simp [hin, h]
       · by_cases h : c' = c
         · subst h
           have : l.count c' = 0 := List.count_eq_zero.mpr hin
